@@ -1,21 +1,22 @@
 #!/bin/bash
 # usage: seedsave.sh <ID> [origin-note]  -- after seedcheck.sh <ID> was run: stores the confirmed seeded change under /verif/seeded/<ID>/
 id=$1; note=${2:-"independent sub-agent given only the property text and a scratch worktree"}
-SRC=/tmp/seed_out/$id; DST=/verif/seeded/$id
+SRC=${SEEDSRC:-/tmp/seed_out}/$id; DST=/verif/seeded/$id
 mkdir -p $DST
 cp $SRC/patch.diff $DST/patch.diff
 cp $SRC/demo_test.go $DST/demo_test.go
 python3 - "$id" "$note" <<'PY'
 import json,sys,re,subprocess
 id,note=sys.argv[1],sys.argv[2]
-m=json.load(open(f'/tmp/seed_out/{id}/meta.json'))
-first=open(f'/tmp/seed_out/{id}/demo_test.go').readline().strip()
+m=json.load(open(__import__('os').environ.get('SEEDSRC','/tmp/seed_out')+f'/{id}/meta.json'))
+first=open(__import__('os').environ.get('SEEDSRC','/tmp/seed_out')+f'/{id}/demo_test.go').readline().strip()
 chk=open(f'/tmp/seed_chk_{id}.txt').read().splitlines()
 viol=[l for l in chk if l.startswith(('VIOLATED','UNDECIDED'))]
 keys=[re.sub(r'^(VIOLATED|UNDECIDED)\s+','',l).split(' [')[0] for l in viol]
 head=subprocess.check_output(['git','-C','/repo','rev-parse','--short','HEAD']).decode().strip()
 out={
- "property": id,
+ "property": m.get("property", id),
+ "seed_id": id,
  "summary": m.get("summary"),
  "needs_to_manifest": m.get("needs"),
  "breaks": m.get("breaks"),
@@ -28,7 +29,7 @@ out={
  },
  "detected": len(viol)>0,
  "detected_by": keys,
- "check_cmd": f"git -C /repo apply /verif/seeded/{id}/patch.diff && ./bin/lachk -property {id} -tier quick ; git -C /repo checkout -- .",
+ "check_cmd": f"git -C /repo apply /verif/seeded/{id}/patch.diff && ./bin/lachk -property {m.get('property', id)} -tier quick ; git -C /repo checkout -- .",
 }
 json.dump(out,open(f'/verif/seeded/{id}/meta.json','w'),indent=1)
 print(id,'detected' if viol else 'MISSED',keys[:2])
